@@ -859,3 +859,227 @@ multi_batch!(c01_init_and_shares_chunks_k5_b2, c01_garbler_chunks_k5_b2, 5, 2, 8
 multi_batch!(c01_init_and_shares_chunks_k3_b1, c01_garbler_chunks_k3_b1, 3, 1, 6);
 multi_batch!(c01_init_and_shares_chunks_k4_b3, c01_garbler_chunks_k4_b3, 4, 3, 7);
 multi_batch!(c01_init_and_shares_chunks_k3_b2, c01_garbler_chunks_k3_b2, 3, 2, 6);
+
+/// C07 - a garbler reveals exactly one label per input wire: label_0 ^ (masked bit * delta),
+/// nothing for registers without a masked input; in particular never both labels of a wire
+/// (their XOR is the global key) and never delta itself.
+#[kani::proof]
+#[kani::unwind(6)]
+#[kani::stub(std::fmt::format, no_format)]
+fn c07_ip_labels_one_label_per_wire() {
+    let delta: u128 = kani::any();
+    let l: [u128; 3] = [kani::any(), kani::any(), kani::any()];
+    let m = [any_opt_bool(), any_opt_bool(), any_opt_bool()];
+    let labels = [Label(l[0]), Label(l[1]), Label(l[2])];
+    let r = seg_ip_labels(Delta(delta), &labels, vec![m[0], m[1], m[2]]);
+    let ok = r.is_ok();
+    assert!(ok, "C07:labels:returns-Ok");
+    if let Ok(v) = &r {
+        assert!(v.len() == 3, "C07:labels:one-slot-per-register");
+        let mut w = 0;
+        while w < 3 {
+            if v.len() == 3 {
+                match (m[w], v[w]) {
+                    (None, None) => {}
+                    (Some(b), Some(lab)) => {
+                        assert!(lab.0 == l[w] ^ (if b { delta } else { 0 }), "C07:labels:sent-label==label0^masked-bit*delta");
+                    }
+                    _ => {
+                        assert!(false, "C07:labels:label-sent-iff-masked-input-known");
+                    }
+                }
+            }
+            w += 1;
+        }
+    }
+    kani::cover!(ok && m[0] == Some(true) && m[1].is_none(), "labels_nontrivial_reachable");
+    std::mem::forget(r);
+}
+
+// ------------------------------------------------------------------------------------------
+// C05: what is sent to whom in output()
+
+/// C05 - output-wire shares message for one recipient: Some only for output registers, and
+/// then exactly (own share bit, own MAC *towards that recipient*); recipients of the round are
+/// the members of p_out other than the party itself, each exactly once.
+#[kani::proof]
+#[kani::unwind(6)]
+#[kani::stub(std::fmt::format, no_format)]
+fn c05_output_share_msg_n3() {
+    // 3 parties, own index 0, 3 registers, output registers (2, 0, 2)
+    let circ = Circuit { input_regs: vec![1, 1, 1], insts: vec![], max_reg_count: 3, output_regs: vec![Reg(2), Reg(0), Reg(2)], and_ops: 0 };
+    let bits: [bool; 3] = [kani::any(), kani::any(), kani::any()];
+    let m1: [u128; 3] = [kani::any(), kani::any(), kani::any()];
+    let m2: [u128; 3] = [kani::any(), kani::any(), kani::any()];
+    let sh = |w: usize| Share(bits[w], Auth(vec![(Mac(0), Key(0)), (Mac(m1[w]), Key(kani::any())), (Mac(m2[w]), Key(kani::any()))]));
+    let shares = vec![sh(0), sh(1), sh(2)];
+    let to: usize = if kani::any() { 1 } else { 2 };
+    let r = seg_output_share_msg(&circ, &shares, to);
+    let ok = r.is_ok();
+    assert!(ok, "C05:output-shares:message-built");
+    if let Ok(msg) = &r {
+        assert!(msg.len() == 3, "C05:output-shares:one-slot-per-register");
+        if msg.len() == 3 {
+            assert!(msg[1].is_none(), "C05:output-shares:nothing-for-non-output-registers");
+            let exp = |w: usize| Some((bits[w], Mac(if to == 1 { m1[w] } else { m2[w] })));
+            assert!(msg[0] == exp(0) && msg[2] == exp(2), "C05:output-shares:payload==(own bit, own MAC towards the recipient)");
+        }
+    }
+    kani::cover!(ok && to == 2, "share_msg_reachable");
+    std::mem::forget(r);
+    std::mem::forget((circ, shares));
+}
+
+fn recipients_ok(rec: &Vec<usize>, p_out: &[usize], p_own: usize) -> bool {
+    // exactly the members of p_out other than p_own, in order, each once (p_out duplicate-free)
+    let mut ok = true;
+    let mut k = 0;
+    let mut i = 0;
+    while i < p_out.len() {
+        if p_out[i] != p_own {
+            ok &= k < rec.len() && rec[k] == p_out[i];
+            k += 1;
+        }
+        i += 1;
+    }
+    ok && k == rec.len()
+}
+
+#[kani::proof]
+#[kani::unwind(6)]
+fn c05_output_recipients() {
+    let p_out = any_vec_usize_le3();
+    let p_own: usize = kani::any();
+    let r1 = seg_output_share_recipients(&p_out, p_own);
+    assert!(recipients_ok(&r1, &p_out, p_own), "C05:output-shares:recipients==p_out-without-self");
+    let r2 = seg_output_lambda_recipients(&p_out, p_own);
+    assert!(recipients_ok(&r2, &p_out, p_own), "C05:lambda:recipients==p_out-without-self");
+    kani::cover!(r1.len() == 2, "two_recipients_reachable");
+    std::mem::forget((r1, r2, p_out));
+}
+
+/// C05 - evaluator's reveal message for one recipient: Some only for output registers, and then
+/// (masked value, the label *of that recipient*).
+#[kani::proof]
+#[kani::unwind(6)]
+#[kani::stub(std::fmt::format, no_format)]
+fn c05_output_lambda_msg_n3() {
+    let circ = Circuit { input_regs: vec![1, 1, 1], insts: vec![], max_reg_count: 3, output_regs: vec![Reg(2), Reg(0), Reg(2)], and_ops: 0 };
+    let v: [bool; 3] = [kani::any(), kani::any(), kani::any()];
+    let l1: [u128; 3] = [kani::any(), kani::any(), kani::any()];
+    let l2: [u128; 3] = [kani::any(), kani::any(), kani::any()];
+    let values = vec![v[0], v[1], v[2]];
+    let le = |w: usize| vec![Label(0), Label(l1[w]), Label(l2[w])];
+    let labels_eval = vec![le(0), le(1), le(2)];
+    let to: usize = if kani::any() { 1 } else { 2 };
+    let r = seg_output_lambda_msg(&circ, &values, &labels_eval, to);
+    let ok = r.is_ok();
+    assert!(ok, "C05:lambda:message-built");
+    if let Ok(msg) = &r {
+        assert!(msg.len() == 3, "C05:lambda:one-slot-per-register");
+        if msg.len() == 3 {
+            assert!(msg[1].is_none(), "C05:lambda:nothing-for-non-output-registers");
+            let exp = |w: usize| Some((v[w], Label(if to == 1 { l1[w] } else { l2[w] })));
+            assert!(msg[0] == exp(0) && msg[2] == exp(2), "C05:lambda:payload==(masked value, label of the recipient)");
+        }
+    }
+    kani::cover!(ok && to == 1, "lambda_msg_reachable");
+    std::mem::forget(r);
+    std::mem::forget((circ, values, labels_eval));
+}
+
+// ------------------------------------------------------------------------------------------
+// C18: everything _mpc() executes before its first await (i.e. before any message can be sent)
+
+/// C18 - "before sending any message": the statements of _mpc() in front of its first `.await`,
+/// cut from the source, already reject an invalid evaluator / own index / output set / input
+/// length for an otherwise valid 2-party circuit (if validation were moved behind the
+/// preprocessing this segment would return Ok for them).
+#[kani::proof]
+#[kani::unwind(5)]
+#[kani::stub(std::fmt::format, no_format)]
+fn c18_mpc_head_rejects_before_first_await() {
+    let circ = Circuit {
+        input_regs: vec![1, 1],
+        insts: vec![
+            Inst { out: Reg(0), op: Op::Input(Input { party: 0, input: 0 }) },
+            Inst { out: Reg(1), op: Op::Input(Input { party: 1, input: 0 }) },
+            Inst { out: Reg(2), op: Op::Xor(Xor(Reg(0), Reg(1))) },
+        ],
+        max_reg_count: 3,
+        output_regs: vec![Reg(2)],
+        and_ops: 0,
+    };
+    let inputs = any_vec_bool_le3();
+    let p_out = any_vec_usize_le3();
+    let p_eval: usize = kani::any();
+    let p_own: usize = kani::any();
+    let ch = NoChan;
+    let ctx = Context::new(&ch, &circ, &inputs, Preprocessor::Untrusted, p_eval, p_own, &p_out, None);
+    let r = seg_mpc_head(&ctx);
+    let ok = r.is_ok();
+    std::mem::forget(r);
+    kani::cover!(ok, "head_ok_reachable");
+    kani::cover!(!ok, "head_err_reachable");
+    if ok {
+        assert!(p_own < 2 && p_eval < 2, "C18:before-first-await:party-indices-checked");
+        assert!(inputs.len() == 1, "C18:before-first-await:input-length-checked");
+        let mut good = !p_out.is_empty();
+        for p in p_out.iter() {
+            good &= *p < 2;
+        }
+        assert!(good, "C18:before-first-await:output-set-checked");
+    }
+    std::mem::forget(circ);
+}
+
+// ------------------------------------------------------------------------------------------
+// C09: which Option slots are Some does not depend on secret values (2-safety)
+
+/// C09 - input sharing: the Some/None pattern of the per-party "wire shares" messages is the
+/// same for any two sets of share values (it depends on the circuit and the own index only).
+#[kani::proof]
+#[kani::unwind(6)]
+#[kani::stub(std::fmt::format, no_format)]
+fn c09_ip_pre_pattern_independent_of_shares() {
+    let party0: u32 = kani::any();
+    let party1: u32 = kani::any();
+    kani::assume(party0 < 3 && party1 < 3);
+    let mk_circ = || Circuit {
+        input_regs: vec![1, 1, 1],
+        insts: vec![
+            Inst { out: Reg(0), op: Op::Input(Input { party: party0, input: 0 }) },
+            Inst { out: Reg(1), op: Op::Input(Input { party: party1, input: 0 }) },
+        ],
+        max_reg_count: 2,
+        output_regs: vec![Reg(0)],
+        and_ops: 0,
+    };
+    let c1 = mk_circ();
+    let c2 = mk_circ();
+    let mk = || Share(kani::any(), Auth(vec![(Mac(kani::any()), Key(0)), (Mac(kani::any()), Key(0)), (Mac(kani::any()), Key(0))]));
+    let a = seg_ip_pre(&c1, 1, 3, vec![mk(), mk()]);
+    let b = seg_ip_pre(&c2, 1, 3, vec![mk(), mk()]);
+    let both = a.is_ok() && b.is_ok();
+    assert!(a.is_ok() == b.is_ok(), "C09:input-sharing:error-behaviour-independent-of-share-values");
+    if let (Ok(a), Ok(b)) = (&a, &b) {
+        let mut same = a.len() == b.len();
+        let mut p = 0;
+        while p < 3 {
+            if a.len() == 3 && b.len() == 3 {
+                same &= a[p].len() == b[p].len();
+                let mut w = 0;
+                while w < 2 {
+                    if a[p].len() == 2 && b[p].len() == 2 {
+                        same &= a[p][w].is_some() == b[p][w].is_some();
+                    }
+                    w += 1;
+                }
+            }
+            p += 1;
+        }
+        assert!(same, "C09:input-sharing:Some-pattern-independent-of-share-values");
+    }
+    kani::cover!(both, "pattern_both_ok_reachable");
+    std::mem::forget((a, b, c1, c2));
+}
